@@ -461,6 +461,15 @@ func fnv64(seed uint64, s string) uint64 {
 // Yield implements the shim's runtime interface: a statement boundary of a rewritten
 // package. Most sites are inactive in a given run (swarm: the active subset is a function
 // of the seed), and an inactive site costs one hash of its name.
+// Pick: the preferred clause of the select statement at site in this run - a function of the run's seed and the
+// site only (no tape draw: it is called on goroutines of the code under test).
+func (rt *LockRuntime) Pick(site string, n int) int {
+	if n <= 1 {
+		return 0
+	}
+	return HashChoice(rt.s.Seed, "select|"+site, n)
+}
+
 func (rt *LockRuntime) Yield(site string) {
 	d := rt.YieldDen
 	if d == 0 || fnv64(rt.s.Seed, site)%d != 0 {
